@@ -119,7 +119,7 @@ func checkC29(r *mon.Run) {
 		replay(r, rf, func(c *call) { judgeCallC29(r, c) })
 		return
 	}
-	n := r.Pick(48, 800)
+	n := r.Pick(80, 800)
 	runWorkload(r, n, func(c *call) { judgeCallC29(r, c) })
 	r.Extra("topologies", n)
 	r.Require(int64(r.Pick(15000, 200000)), 25, "demanded_all", "demanded_dedup", "found", "ref_duplicate_construction",
